@@ -667,7 +667,9 @@ bool GlobalGraph::nodesAreMetOnlyOnce_(const GlobalGraph::Node& node, set<Global
   vector<Graph::NodeId> neighbors = getOutgoingNeighbors(node);
   for (auto currNeighbor:neighbors)
   {
-    if (currNeighbor == originNode)
+    // only an undirected link is seen a second time from its other end;
+    // in a directed graph an arc back to the origin closes a cycle
+    if (!directed_ && currNeighbor == originNode)
       continue;
     if (!nodesAreMetOnlyOnce_(currNeighbor, metNodes, node))
       return false;
